@@ -627,9 +627,9 @@ func runMod1(c *eng.Ctx, cc compCfg) {
 	c.Eval(slots)
 	c.Max("max_mod1_err_log2_plus100", int64(100+math.Max(-100, math.Log2(worst+1e-300))))
 	// the tree's own acceptance for these parameter sets is an average precision of 45-logN-2 bits; the worst slot
-	// is allowed 2^-12 here (message magnitude 1): a wrong coefficient, a missing double-angle step or a wrong
+	// is allowed 2^-20 here (measured 2^-31) (message magnitude 1): a wrong coefficient, a missing double-angle step or a wrong
 	// target scale moves the result by >= 2^-3
-	if !(worst <= math.Exp2(-12)) {
+	if !(worst <= math.Exp2(-20)) {
 		c.Violate(sig+"|wrong-value", fmt.Sprintf("%+v type=%d: slot %d x=%g got %v, error 2^%.1f", cc, evm.Mod1Type, wi, vals[wi], out[wi], math.Log2(worst)), cc)
 	}
 }
